@@ -64,6 +64,14 @@ Theorem every_rule_is_linked : forall i rules r, rules_linked i rules = true -> 
 Proof. exact ImageProofs.rules_linked_l. Qed.
 Print Assumptions every_rule_is_linked.
 
+(* multipass programs: the walker steps through the byte code of every context / correct / pass2-4 rule as the
+   interpreters do; every rule reference embedded in a program is a reference like any other (references_sound), and
+   every bound it reports holds: instructions end inside their part of the rule, variable numbers are below NUMVAR,
+   the test part is terminated *)
+Theorem program_bounds_sound : forall l v b, bounds_ok l = true -> In (v, b) l -> 0 <= v < b.
+Proof. exact ImageProofs.bounds_ok_l. Qed.
+Print Assumptions program_bounds_sound.
+
 (* ---- the allocator, for every sequence of sizes *)
 Definition arena_run (hdr : Z) (sizes : list Z) : arena :=
   fold_left (fun ar n => fst (arena_alloc hdr ar n)) sizes (arena_init hdr).
